@@ -15,10 +15,12 @@ package main
 // model (which is faithful to the code, defects included).
 
 import (
+	"bufio"
 	"bytes"
 	"encoding/hex"
 	"errors"
 	"fmt"
+	"io"
 	"math"
 	"os"
 	"reflect"
@@ -32,6 +34,7 @@ import (
 	"github.com/kstenerud/go-concise-encoding/ce"
 	"github.com/kstenerud/go-concise-encoding/ce/events"
 	"github.com/kstenerud/go-concise-encoding/configuration"
+	"github.com/kstenerud/go-concise-encoding/types"
 )
 
 func init() { register("C16", runC16, replayC16) }
@@ -42,6 +45,7 @@ func init() { register("C16", runC16, replayC16) }
 type c16Cfg struct {
 	MaxDoc, MaxDepth, MaxObjects uint64 // 0 = library default
 	MaxRefs, MaxMarkers          uint64 // 0 = library default
+	Rec                          bool   // Iterator.RecursionSupport (markers / references for shared and cyclic pointers)
 }
 
 func (k c16Cfg) config() *configuration.Configuration {
@@ -61,10 +65,16 @@ func (k c16Cfg) config() *configuration.Configuration {
 	if k.MaxMarkers != 0 {
 		cfg.Rules.MaxMarkerCount = k.MaxMarkers
 	}
+	if k.Rec {
+		cfg.Iterator.RecursionSupport = true
+	}
 	return cfg
 }
 
 func (k c16Cfg) String() string {
+	if k.Rec {
+		return fmt.Sprintf("%d/%d/%d/%d/%d/1", k.MaxDoc, k.MaxDepth, k.MaxObjects, k.MaxRefs, k.MaxMarkers)
+	}
 	if k.MaxRefs == 0 && k.MaxMarkers == 0 {
 		return fmt.Sprintf("%d/%d/%d", k.MaxDoc, k.MaxDepth, k.MaxObjects)
 	}
@@ -80,7 +90,7 @@ func c16ParseCfg(s string) c16Cfg {
 		v, _ := strconv.ParseUint(p[i], 10, 64)
 		return v
 	}
-	return c16Cfg{u(0), u(1), u(2), u(3), u(4)}
+	return c16Cfg{u(0), u(1), u(2), u(3), u(4), u(5) != 0}
 }
 
 func (k c16Cfg) rulesCfg() RulesCfg {
@@ -96,9 +106,15 @@ type c16Op struct {
 	Evs []Ev   // validator / encoders
 	Doc []byte // decoders / unmarshalers
 	Val string // marshalers: name in c16Values; unmarshalers: name in c16Templates
+	W   string // encoders / marshalers: kind of destination writer (name in c16DestKinds; "" = bytes.Buffer)
 }
 
 func (o c16Op) text(kind string) string {
+	if o.W != "" {
+		w := o.W
+		o.W = ""
+		return "<" + w + "> " + o.text(kind)
+	}
 	switch c16Family(kind) {
 	case "events":
 		return evsString(o.Evs)
@@ -112,6 +128,15 @@ func (o c16Op) text(kind string) string {
 }
 
 func c16ParseOp(kind, s string) (c16Op, error) {
+	if strings.HasPrefix(s, "<") {
+		i := strings.Index(s, "> ")
+		if i < 0 || !c16IsBad(s[1:i], c16DestKinds) {
+			return c16Op{}, fmt.Errorf("bad destination kind in %q", s)
+		}
+		o, err := c16ParseOp(kind, s[i+2:])
+		o.W = s[1:i]
+		return o, err
+	}
 	switch c16Family(kind) {
 	case "events":
 		es, err := parseEvs(s)
@@ -327,7 +352,8 @@ func c16Watch(f func() string) string {
 type c16Inst struct {
 	kind string
 	cfg  c16Cfg
-	dead bool // a call hung: the instance is still in use by the blocked goroutine
+	dead bool       // a call hung: the instance is still in use by the blocked goroutine
+	past []*c16Dest // the destinations of the earlier calls (encoders / marshalers)
 	// exactly one of these is set
 	rules *c16RulesInst
 	dec   ce.Decoder
@@ -411,20 +437,106 @@ func (in *c16Inst) callInner(op c16Op) string {
 		}
 		return res
 	case in.enc != nil:
-		var buf bytes.Buffer
-		in.enc.PrepareToEncode(&buf)
+		d := c16NewDest(op.W)
+		before := c16DestSizes(in.past)
+		in.enc.PrepareToEncode(d.w)
 		at, _ := playAll(in.enc, op.Evs)
-		return fmt.Sprintf("rej=%d|%s", at, hex.EncodeToString(buf.Bytes()))
+		res := fmt.Sprintf("rej=%d|%s", at, hex.EncodeToString(d.bytes()))
+		return res + in.leak(before, d)
 	case in.mar != nil:
-		doc, err := in.mar.MarshalToDocument(c16Values[op.Val]())
-		if err != nil {
-			return c16ErrHead(err) + "|" + hex.EncodeToString(doc)
+		if strings.HasPrefix(op.Val, "rec:") && !in.cfg.Rec {
+			return "skip" // a cyclic value without RecursionSupport overflows the stack (C07 finding, fatal)
 		}
-		return "ok|" + hex.EncodeToString(doc)
+		if op.W == "" { // the document API
+			doc, err := in.mar.MarshalToDocument(c16Values[op.Val]())
+			if err != nil {
+				return c16ErrHead(err) + "|" + hex.EncodeToString(doc)
+			}
+			return "ok|" + hex.EncodeToString(doc)
+		}
+		d := c16NewDest(op.W)
+		before := c16DestSizes(in.past)
+		err := in.mar.Marshal(c16Values[op.Val](), d.w)
+		head := "ok"
+		if err != nil {
+			head = c16ErrHead(err)
+		}
+		return head + "|" + hex.EncodeToString(d.bytes()) + in.leak(before, d)
 	default:
 		v, err := in.unm.UnmarshalFromDocument(cp(op.Doc), c16Templates[op.Val]())
 		return c16RenderValue(v, err)
 	}
+}
+
+// ---------------------------------------------------------------------------
+// Destinations.  An encoder-side object writes to whatever io.Writer the call names; the library
+// looks at the dynamic type of that writer (io.StringWriter ...), so the KIND of destination is
+// part of an operation.  Every call gets a new destination; what earlier destinations of the same
+// instance receive during a later call is observed too ("leak").
+
+var c16DestKinds = []string{"buffer", "builder", "bufio", "plain", "plainbyte"}
+
+type c16Dest struct {
+	w     io.Writer
+	bytes func() []byte
+}
+
+// only io.Writer
+type c16PlainWriter struct{ b []byte }
+
+func (p *c16PlainWriter) Write(d []byte) (int, error) { p.b = append(p.b, d...); return len(d), nil }
+
+// io.Writer and io.ByteWriter, no WriteString
+type c16PlainByteWriter struct{ b []byte }
+
+func (p *c16PlainByteWriter) Write(d []byte) (int, error) {
+	p.b = append(p.b, d...)
+	return len(d), nil
+}
+func (p *c16PlainByteWriter) WriteByte(c byte) error { p.b = append(p.b, c); return nil }
+
+func c16NewDest(kind string) *c16Dest {
+	switch kind {
+	case "", "buffer": // io.Writer, io.StringWriter, io.ByteWriter, io.ReaderFrom ...
+		b := &bytes.Buffer{}
+		return &c16Dest{w: b, bytes: func() []byte { return cp(b.Bytes()) }}
+	case "builder": // io.Writer, io.StringWriter, io.ByteWriter
+		b := &strings.Builder{}
+		return &c16Dest{w: b, bytes: func() []byte { return []byte(b.String()) }}
+	case "bufio": // io.StringWriter in front of a plain writer; flushed when it is read
+		p := &c16PlainWriter{}
+		b := bufio.NewWriterSize(p, 16)
+		return &c16Dest{w: b, bytes: func() []byte { b.Flush(); return cp(p.b) }}
+	case "plain":
+		p := &c16PlainWriter{}
+		return &c16Dest{w: p, bytes: func() []byte { return cp(p.b) }}
+	case "plainbyte":
+		p := &c16PlainByteWriter{}
+		return &c16Dest{w: p, bytes: func() []byte { return cp(p.b) }}
+	}
+	panic("c16: unknown destination kind " + kind)
+}
+
+func c16DestSizes(ds []*c16Dest) []int {
+	out := make([]int, len(ds))
+	for i, d := range ds {
+		out[i] = len(d.bytes())
+	}
+	return out
+}
+
+// leak renders what the destinations of EARLIER calls received during this call (nothing, on a
+// correct instance and on every fresh one) and files this call's destination with them.
+func (in *c16Inst) leak(before []int, d *c16Dest) string {
+	n := 0
+	for i, p := range in.past {
+		n += len(p.bytes()) - before[i]
+	}
+	in.past = append(in.past, d)
+	if n != 0 {
+		return fmt.Sprintf("|earlier-destinations+%d", n)
+	}
+	return ""
 }
 
 func c16RenderValue(v interface{}, err error) (s string) {
@@ -670,12 +782,21 @@ func c16Key(kind string, k c16Cfg, ops []c16Op, st c16Step) string {
 				}
 			}
 		}
+		if c16MixedDests(ops) {
+			return key + "/destination-kinds"
+		}
+		if k.Rec {
+			return key + "/recursion-support"
+		}
 		for _, o := range ops[:len(ops)-1] {
 			if c16IsBad(o.Val, bad) {
 				return key + "/after-unsupported-type"
 			}
 		}
 	case "events":
+		if kind != "rules" && c16MixedDests(ops) {
+			return key + "/destination-kinds"
+		}
 		if kind == "rules" {
 			for _, o := range ops[:len(ops)-1] {
 				if c16LeavesReferencePending(o.Evs) {
@@ -717,6 +838,22 @@ func c16NameCycle(table map[string]func() interface{}, name string) (cyclic, uns
 		return false, false
 	}
 	return c16TypeCyclic(t, map[reflect.Type]bool{}), c16TypeUnsupported(t, map[reflect.Type]bool{}) || strings.HasPrefix(name, "g:GJ/")
+}
+
+// were the calls of the history given destinations of different kinds?
+func c16MixedDests(ops []c16Op) bool {
+	norm := func(w string) string {
+		if w == "" {
+			return "buffer"
+		}
+		return w
+	}
+	for _, o := range ops[1:] {
+		if norm(o.W) != norm(ops[0].W) {
+			return true
+		}
+	}
+	return false
 }
 
 func c16IsBad(name string, bad []string) bool {
@@ -965,7 +1102,7 @@ func c16Pick(c *Ctx, good, bad []string, pBad int) string {
 }
 
 func runC16(c *Ctx) {
-	c.Rep.Rule = "histories of 2..8 operations on ONE instance per kind (rules validator with Reset; CBE / CTE / universal decoder; CBE / CTE encoder with PrepareToEncode; CBE / CTE marshaler; CBE / CTE unmarshaler), every operation also given to a freshly created instance of the same configuration and the two answers compared (forwarded events / output bytes / decoded value rendered by reflection / error-or-not / hang, watchdog on blocked goroutines); operations: generated valid event streams and documents, mutants, streams aborted after a container or array begin, streams without begin-document, values and templates of unsupported Go types (chan, func, complex, unsafe.Pointer, structs / slices / maps / interfaces holding them) mixed with supported ones, documents near small MaxDocumentSizeBytes / MaxContainerDepth / MaxObjectCount limits incl. documents that fit one by one while their sizes add up beyond the limit; directed families: (S) first documents that FAIL or are abandoned with per-document state populated (pending forward reference with / without markers, markers, record types, open containers with a consumed map key, array chunk in progress incl. cut inside a UTF-8 sequence, array begun, marker pending; endings: stop, early end-of-document, proper end, too many ends, duplicate marker, null key, chunk without array, invalid UTF-8, undeclared record) crossed with later documents that use the SAME identifiers and read that state, under default limits and under small depth / object / reference / marker limits with documents on both sides of each limit, as event streams (validator, encoders) and as the CBE / CTE documents they encode to (decoders, unmarshalers); (B) documents abandoned at every byte position, with trailing bytes or over the limit, then documents of exactly limit-1 / limit / limit+1 bytes for several MaxDocumentSizeBytes; (G) self-referential and mutually recursive Go types reaching an unsupported kind, entered through different views (value, pointer, slice, map, interface, pointer to pointer ...) in every order, as marshaled values and as unmarshal templates; the error of a call is compared as none / reported / Go runtime fault; non-trivial = history of at least 2 operations; distinct by (kind, limits, history text)"
+	c.Rep.Rule = "histories of 2..8 operations on ONE instance per kind (rules validator with Reset; CBE / CTE / universal decoder; CBE / CTE encoder with PrepareToEncode; CBE / CTE marshaler; CBE / CTE unmarshaler), every operation also given to a freshly created instance of the same configuration and the two answers compared (forwarded events / output bytes / decoded value rendered by reflection / error-or-not / hang, watchdog on blocked goroutines); operations: generated valid event streams and documents, mutants, streams aborted after a container or array begin, streams without begin-document, values and templates of unsupported Go types (chan, func, complex, unsafe.Pointer, structs / slices / maps / interfaces holding them) mixed with supported ones, documents near small MaxDocumentSizeBytes / MaxContainerDepth / MaxObjectCount limits incl. documents that fit one by one while their sizes add up beyond the limit; directed families: (S) first documents that FAIL or are abandoned with per-document state populated (pending forward reference with / without markers, markers, record types, open containers with a consumed map key, array chunk in progress incl. cut inside a UTF-8 sequence, array begun, marker pending; endings: stop, early end-of-document, proper end, too many ends, duplicate marker, null key, chunk without array, invalid UTF-8, undeclared record) crossed with later documents that use the SAME identifiers and read that state, under default limits and under small depth / object / reference / marker limits with documents on both sides of each limit, as event streams (validator, encoders) and as the CBE / CTE documents they encode to (decoders, unmarshalers); (B) documents abandoned at every byte position, with trailing bytes or over the limit, then documents of exactly limit-1 / limit / limit+1 bytes for several MaxDocumentSizeBytes; (G) self-referential and mutually recursive Go types reaching an unsupported kind, entered through different views (value, pointer, slice, map, interface, pointer to pointer ...) in every order, as marshaled values and as unmarshal templates; (W) every reusable encoder-side object (CBE / CTE encoder, CBE / CTE marshaler) given destinations of different KINDS call after call (bytes.Buffer, strings.Builder, bufio.Writer, a writer with only Write, a writer with Write and WriteByte): every ordered pair and triple of kinds, on streams / values with strings, chunked strings, resource IDs, media, record keys, custom text, a long string and a control without strings; the bytes that reach the call's own destination and the bytes that reach destinations of EARLIER calls are compared; (R) Iterator.RecursionSupport = true on reused marshalers over values with shared and cyclic pointers (0..3 markers: shared slice elements, fields, maps, slices, interface contents, self cycle, two-cycle, cycle plus sharing): every ordered pair, sampled longer histories, also mixed with ordinary values and destination kinds; the error of a call is compared as none / reported / Go runtime fault; non-trivial = history of at least 2 operations; distinct by (kind, limits, history text)"
 	g := NewEvGen(c.Rng, c16GenOpts())
 	only := os.Getenv("C16_ONLY")
 	t0 := time.Now()
@@ -1050,6 +1187,10 @@ func runC16(c *Ctx) {
 	lap("size family")
 	c16RunGraphFamily(c, only, record)
 	lap("graph family")
+	c16RunDestFamily(c, only, record)
+	lap("destination family")
+	c16RunRecursionFamily(c, only, record)
+	lap("recursion family")
 
 	// 1. event-driven instances
 	for _, kind := range []string{"rules", "cbe-encoder", "cte-encoder"} {
@@ -1303,15 +1444,20 @@ func c16CaseReader(c *Ctx, maxDoc uint64, docs [][]byte, viaUnmarshaler bool) {
 
 // (c) encoder histories: index of the first rejected event and the bytes written by the accepted ones
 func c16EncodeObserved(enc ce.Encoder, es []Ev) (int, []byte) {
-	var buf bytes.Buffer
-	enc.PrepareToEncode(&buf)
+	return c16EncodeObservedTo(enc, es, "")
+}
+
+// the same into a destination of the given kind
+func c16EncodeObservedTo(enc ce.Encoder, es []Ev, w string) (int, []byte) {
+	d := c16NewDest(w)
+	enc.PrepareToEncode(d.w)
 	for i, e := range es {
-		mark := buf.Len()
+		mark := len(d.bytes())
 		if _, bad := playOne(enc, e); bad {
-			return i, cp(buf.Bytes()[:mark])
+			return i, d.bytes()[:mark]
 		}
 	}
-	return -1, cp(buf.Bytes())
+	return -1, d.bytes()
 }
 
 func c16InCbeModel(es []Ev) bool {
@@ -1335,7 +1481,7 @@ func c16CaseCbeEnc(c *Ctx, ops []c16Op) {
 		if !c16InCbeModel(o.Evs) {
 			return
 		}
-		at, out := c16EncodeObserved(enc, o.Evs)
+		at, out := c16EncodeObservedTo(enc, o.Evs, o.W) // the model's encoder has no notion of destination kinds
 		docs = append(docs, cEvs(o.Evs))
 		seen = append(seen, cPair(cOptN(at), cBytes(out)))
 	}
@@ -2503,4 +2649,230 @@ func c16CaseGraphCache(c *Ctx, kind string, ops []c16Op, steps []c16Step) {
 		tb[i] = cPair(cNi(id), m.nodes[id])
 	}
 	c.c16GraphCases().Add(cApp("CacheGraphHist", cList(tb), cList(terms), cList(seen)), kind+" type graph :: "+c16HistoryText(kind, ops[:len(steps)]))
+}
+
+// ===========================================================================
+// Directed family W: kinds of destination writers x order, for every reusable encoder-side object.
+
+func c16DestStreams() []c16Named {
+	str, rid := int(events.ArrayTypeString), int(events.ArrayTypeResourceID)
+	h := func(t string) string { return hex.EncodeToString([]byte(t)) }
+	mk := func(tag, text string) c16Named { return c16Named{tag, c16Evs(text)} }
+	return []c16Named{
+		mk("string", fmt.Sprintf("bd v:0 l sa:%d:%s pi:1 e ed", str, h("abc"))),
+		mk("media", fmt.Sprintf("bd v:0 media:%s:0102 ed", h("text/plain"))),
+		mk("chunked-string", fmt.Sprintf("bd v:0 l ab:%d ac:2:true ad:6162 ac:1:false ad:63 e ed", str)),
+		mk("map-key-and-resource", fmt.Sprintf("bd v:0 m sa:%d:%s sa:%d:%s e ed", str, h("k"), rid, h("http://x"))),
+		mk("record-key", fmt.Sprintf("bd v:0 rt:52 sa:%d:%s e l rec:52 pi:1 e e ed", str, h("k"))),
+		mk("media-begin-and-custom-text", fmt.Sprintf("bd v:0 l mb:%s ac:1:false ad:00 ct:1:%s e ed", h("a/b"), h("ab"))),
+		mk("long-string", fmt.Sprintf("bd v:0 sa:%d:%s ed", str, h(strings.Repeat("long string ", 40)))),
+		mk("no-string", "bd v:0 l pi:1 ni:2 e ed"),
+	}
+}
+
+type c16Strs struct {
+	Name string
+	Tags []string
+	M    map[string]string
+}
+
+func init() {
+	c16Values["strs"] = func() interface{} { return []string{"a", "", "ccc"} }
+	c16Values["media"] = func() interface{} { return types.Media{MediaType: "text/plain", Data: []byte{1, 2}} }
+	c16Values["longstr"] = func() interface{} { return strings.Repeat("long string ", 40) }
+	c16Values["strstruct"] = func() interface{} { return &c16Strs{"n", []string{"t1", "t2"}, map[string]string{"k": "v"}} }
+}
+
+var c16DestValues = []string{"string", "S1", "strmap", "iface-list", "media", "strs", "longstr", "strstruct", "int"}
+
+// all ordered pairs (w1 w2 w1) and triples of destination kinds
+func c16DestOrders() [][]string {
+	out := [][]string{}
+	for _, a := range c16DestKinds {
+		for _, b := range c16DestKinds {
+			out = append(out, []string{a, b, a})
+		}
+	}
+	for _, a := range c16DestKinds {
+		for _, b := range c16DestKinds {
+			for _, d := range c16DestKinds {
+				if a != d {
+					out = append(out, []string{a, b, d})
+				}
+			}
+		}
+	}
+	return out
+}
+
+func c16RunDestFamily(c *Ctx, only string, record c16Recorder) {
+	c16FreshCache = map[string]string{}
+	defer func() { c16FreshCache = nil }()
+	orders := c16DestOrders()
+	streams := c16DestStreams()
+	for _, kind := range []string{"cbe-encoder", "cte-encoder"} {
+		if !c16Wanted(only, kind) {
+			continue
+		}
+		n := 0
+		for oi, ws := range orders {
+			for si := range streams {
+				if len(ws) == 3 && ws[0] != ws[2] && !c.Thorough() && (si+oi)%4 != 0 {
+					continue // triples of three kinds: a quarter of the streams each (quick tier)
+				}
+				ops := make([]c16Op, len(ws))
+				for j, w := range ws {
+					ops[j] = c16Op{Evs: streams[(si+j*(1+oi%3))%len(streams)].Evs, W: w}
+				}
+				record(kind, c16Cfg{}, ops, c16Check(c, kind, c16Cfg{}, ops, "directed: destinations of different kinds in sequence"))
+				n++
+				if kind == "cbe-encoder" && (c.Thorough() || n%3 == 0) {
+					c16CaseCbeEnc(c, ops)
+				}
+			}
+		}
+	}
+	for _, kind := range []string{"cbe-marshaler", "cte-marshaler"} {
+		if !c16Wanted(only, kind) {
+			continue
+		}
+		for oi, ws := range orders {
+			for vi := range c16DestValues {
+				if len(ws) == 3 && ws[0] != ws[2] && !c.Thorough() && (vi+oi)%4 != 0 {
+					continue
+				}
+				ops := make([]c16Op, len(ws))
+				for j, w := range ws {
+					ops[j] = c16Op{Val: c16DestValues[(vi+j*(1+oi%3))%len(c16DestValues)], W: w}
+				}
+				record(kind, c16Cfg{}, ops, c16Check(c, kind, c16Cfg{}, ops, "directed: destinations of different kinds in sequence"))
+			}
+		}
+		// the document API (its own buffer) between calls with caller-supplied destinations
+		for _, w := range c16DestKinds {
+			for _, v := range c16DestValues {
+				ops := []c16Op{{Val: v}, {Val: v, W: w}, {Val: v}, {Val: "strstruct", W: w}}
+				record(kind, c16Cfg{}, ops, c16Check(c, kind, c16Cfg{}, ops, "directed: document API and caller-supplied destinations in turn"))
+			}
+		}
+	}
+}
+
+// ===========================================================================
+// Directed family R: Iterator.RecursionSupport = true.  Marker names are per document: a reused
+// marshaler must number them as a fresh one does, whatever it marshaled before.
+
+type c16RN struct {
+	V     int
+	Next  *c16RN
+	Other *c16RN
+}
+type c16RPair struct {
+	A, B *c16S1
+}
+
+var c16RecValues = []string{"rec:none", "rec:shared-elements", "rec:shared-fields", "rec:self-cycle", "rec:two-cycle", "rec:two-shared",
+	"rec:three-shared", "rec:shared-map", "rec:shared-slice", "rec:shared-in-interfaces", "rec:cycle-and-shared"}
+
+func init() {
+	p := func(i int) *c16S1 { return &c16S1{i, "p"} }
+	c16Values["rec:none"] = func() interface{} { return &c16RN{V: 1, Next: &c16RN{V: 2}} }
+	c16Values["rec:shared-elements"] = func() interface{} { a := p(1); return []*c16S1{a, a} }
+	c16Values["rec:shared-fields"] = func() interface{} { a := p(1); return &c16RPair{a, a} }
+	c16Values["rec:self-cycle"] = func() interface{} { n := &c16RN{V: 1}; n.Next = n; return n }
+	c16Values["rec:two-cycle"] = func() interface{} {
+		a, b := &c16RN{V: 1}, &c16RN{V: 2}
+		a.Next, b.Next = b, a
+		return a
+	}
+	c16Values["rec:two-shared"] = func() interface{} { a, b := p(1), p(2); return []*c16S1{a, b, a, b} }
+	c16Values["rec:three-shared"] = func() interface{} { a, b, d := p(1), p(2), p(3); return []*c16S1{a, b, d, d, b, a} }
+	c16Values["rec:shared-map"] = func() interface{} { m := map[string]int{"a": 1}; return []map[string]int{m, m} }
+	c16Values["rec:shared-slice"] = func() interface{} { s := []int{1, 2}; return [][]int{s, s} }
+	c16Values["rec:shared-in-interfaces"] = func() interface{} { a := p(1); return []interface{}{a, "x", a} }
+	c16Values["rec:cycle-and-shared"] = func() interface{} {
+		n, o := &c16RN{V: 1}, &c16RN{V: 9}
+		n.Next, n.Other = n, o
+		return []*c16RN{n, o}
+	}
+}
+
+func c16RunRecursionFamily(c *Ctx, only string, record c16Recorder) {
+	c16FreshCache = map[string]string{}
+	defer func() { c16FreshCache = nil }()
+	k := c16Cfg{Rec: true}
+	for _, kind := range []string{"cbe-marshaler", "cte-marshaler"} {
+		if !c16Wanted(only, kind) {
+			continue
+		}
+		run := func(names []string, ws []string, tag string) {
+			ops := make([]c16Op, len(names))
+			for i, v := range names {
+				ops[i] = c16Op{Val: v}
+				if ws != nil {
+					ops[i].W = ws[i]
+				}
+			}
+			steps := c16Check(c, kind, k, ops, tag)
+			record(kind, k, ops, steps)
+			c16CaseMarkers(c, kind, k, ops)
+		}
+		for _, a := range c16RecValues {
+			for _, b := range c16RecValues {
+				run([]string{a, b, a}, nil, "directed: recursion support, values with shared / cyclic pointers in sequence")
+			}
+		}
+		for i := 0; i < c.Pick(150, 3000); i++ {
+			names, ws := []string{}, []string{}
+			for j, n := 0, 2+c.Rng.Intn(5); j < n; j++ {
+				if c.Rng.Intn(4) == 0 {
+					names = append(names, c16GoodValues[c.Rng.Intn(len(c16GoodValues))])
+				} else {
+					names = append(names, c16RecValues[c.Rng.Intn(len(c16RecValues))])
+				}
+				ws = append(ws, c16DestKinds[c.Rng.Intn(len(c16DestKinds))])
+			}
+			if i%2 == 0 {
+				ws = nil
+			}
+			run(names, ws, "sampled: recursion support, values with shared / cyclic pointers and ordinary values")
+		}
+	}
+}
+
+// (g) marker names: ONE marshaler with recursion support over the values of a history; per value the
+// marker names found in the produced document (decoded without rules), in order.  The model names
+// the k marked objects of every document 0 .. k-1.
+func c16CaseMarkers(c *Ctx, kind string, k c16Cfg, ops []c16Op) {
+	in := c16New(kind, k)
+	ks, seen := []string{}, []string{}
+	for _, o := range ops {
+		doc, err := in.mar.MarshalToDocument(c16Values[o.Val]())
+		if err != nil {
+			return
+		}
+		rec := &Recorder{}
+		var dec ce.Decoder
+		if kind == "cbe-marshaler" {
+			dec = ce.NewCBEDecoder(configuration.New())
+		} else {
+			dec = ce.NewCTEDecoder(configuration.New())
+		}
+		if err := dec.DecodeDocument(doc, rec); err != nil {
+			return
+		}
+		names := []string{}
+		for _, e := range rec.Evs {
+			if e.K == "mk" {
+				n, err := strconv.ParseUint(string(e.Data), 10, 64)
+				if err != nil {
+					return
+				}
+				names = append(names, cN(n))
+			}
+		}
+		ks = append(ks, cNi(len(names)))
+		seen = append(seen, cList(names))
+	}
+	c.c16GraphCases().Add(cApp("MarkerHist", cList(ks), cList(seen)), kind+" marker names :: "+c16HistoryText(kind, ops))
 }
